@@ -237,6 +237,7 @@ static void oplog_append(const char *s, size_t n) {
     oplog[oplog_len++] = '\n'; oplog[oplog_len] = 0;
 }
 int vf_errno_noise_every;   /* >0: every n-th case runs with errno noise (see wrap.c) */
+extern long vf_entry_errno_nonzero;
 void vf_case_begin(long caseno, const char *fmt, ...) {
     vf_cur_case = caseno; vf_cur_op = 0; case_viols = 0;
     vf_errno_noise = vf_errno_noise_every > 0 && (caseno % vf_errno_noise_every) == vf_errno_noise_every / 2;
@@ -255,7 +256,27 @@ void vf_log(const char *fmt, ...) {
     oplog_append(buf, (size_t)n);
     vf_cur_op++;
     if (VF.verbose) fprintf(stderr, "   %s\n", buf);
+    if (vf_op_budget_ms > 0) vf_cpu_arm("operation", vf_op_budget_ms);
+    if (vf_errno_entry) errno = vf_entry_errno();
 }
+/* ---- errno on entry / per-operation CPU budget ------------------------------
+ * A library call must not depend on the errno value it is entered with (stale ENOENT of a lookup miss, EINTR after a signal, ENOMEM of an
+ * earlier refused call, ...).  Harnesses that opt in get a value chosen from (case, operation number) - so a replay sees the same one - left
+ * in errno after every vf_log(), i.e. right before the logged operation is executed; harnesses without an operation log call vf_entry_errno()
+ * themselves.  vf_op_budget_ms arms the CPU watchdog for every logged operation: a call that never returns becomes `hang:operation`
+ * (a violation with a replay) instead of a wall-clock timeout of the whole shard (inconclusive). */
+int vf_errno_entry = 0, vf_op_budget_ms = 0;
+int vf_entry_errno_for(uint64_t h) {
+    static const int V[] = {0, ENOENT, EINTR, ENOMEM, 0, ERANGE, EINVAL, EAGAIN, ENOBUFS, ENOTTY, 0, EEXIST, EIO, ENOMEM, ENOENT, EINTR};
+    h ^= h >> 29; h *= 0xBF58476D1CE4E5B9ULL; h ^= h >> 32;
+    int e = V[h % (sizeof V / sizeof V[0])];
+    if (e) vf_entry_errno_nonzero++;
+    return e;
+}
+int vf_entry_errno(void) {
+    return vf_entry_errno_for((uint64_t)vf_cur_case * 0x9E3779B97F4A7C15ULL + (uint64_t)vf_cur_op * 0xC2B2AE3D27D4EB4FULL + VF.seed);
+}
+long vf_entry_errno_nonzero = 0;
 const char *vf_hex(const void *p, size_t n) {
     static char bufs[8][160]; static int k;
     char *b = bufs[k = (k + 1) & 7];
@@ -473,6 +494,8 @@ static void dump_counters(void) {
 }
 static int real_viols;
 int vf_finish(void) {
+    if (vf_op_budget_ms > 0) vf_cpu_disarm();
+    if (vf_entry_errno_nonzero) { vf_count("operations_entered_with_nonzero_errno", vf_entry_errno_nonzero); vf_entry_errno_nonzero = 0; }
     dump_counters();
     res_printf("DONE\t%d\n", vf_nviol);
     return vf_nviol ? 1 : 0;
